@@ -19,6 +19,8 @@ import vlib
 
 LEVEL = "model_checking"
 
+# development knob: VERIF_WORKERS=4 limits TLC's worker threads (the default is all cores)
+WORKERS = int(os.environ.get("VERIF_WORKERS", "0")) or None
 ASAN_ENV = "detect_leaks=0:handle_segv=0:handle_abort=0:allocator_may_return_null=1:exitcode=86:abort_on_error=0"
 FNS = ["tl", "size", "oid", "hex", "dec", "b64"]
 FN_OP = {"tl": "derTLDec", "size": "derTSIZEDec", "oid": "oidFromDER", "hex": "hexIsValid", "dec": "decIsValid", "b64": "b64IsValid"}
@@ -143,7 +145,7 @@ class Bad:
 
 def validate(ctx, path, rows, src, bads, classify=None):
     """Pattern F over an ndjson file; appends Bad records; returns number of lines TLC evaluated."""
-    n, bad, r = vlib.validate_lines(ctx, "Trace_Codec", path, timeout=1000)
+    n, bad, r = vlib.validate_lines(ctx, "Trace_Codec", path, timeout=1000, workers=WORKERS)
     if n < len(rows):
         ctx.note_inconclusive("TLC evaluated %d of %d lines of %s: %s" % (n, len(rows), os.path.basename(path), (r.violation or r.error or "")[:300]))
     spec = {}
@@ -202,7 +204,7 @@ def exhaustive(ctx, drv, fn, bads):
     for l in open(aggf):
         p = l.split()
         impl[(int(p[0]), int(p[1]))] = (tuple(int(x) for x in p[2:9]), int(p[9]))
-    r = vlib.tlc("Gen_DerTL", env=gen_env(ctx, fn), timeout=1000, quiet=True)
+    r = vlib.tlc("Gen_DerTL", env=gen_env(ctx, fn), timeout=1000, quiet=True, workers=WORKERS)
     if vlib.tlc_infra_failed(r) or r.rc != 0:
         ctx.note_inconclusive("Gen_DerTL(%s) gave no table rc=%s %s" % (fn, r.rc, (r.violation or r.error or "")[-300:]))
         return
@@ -288,7 +290,11 @@ def selftest(ctx, rows, badset):
         if (i + 1) in badset or x["fault"] or x["op"] in seen or len(x.get("in", [])) > 64:
             continue
         y = json.loads(json.dumps(x))
-        if x.get("ok") is True and isinstance(x.get("n"), int) and "n" in x:
+        if x["op"] == "apduCmdDec":
+            if not x.get("ok"):
+                continue
+            y["rdf"] = x["rdf"] + 1
+        elif x.get("ok") is True and isinstance(x.get("n"), int) and "n" in x:
             y["n"] = x["n"] + 1
         elif "out" in x and x["out"]:
             y["out"] = x["out"][:-1] + [(x["out"][-1] + 1) % 256]
@@ -304,7 +310,7 @@ def selftest(ctx, rows, badset):
     if not picks:
         ctx.note_inconclusive("self-test: no accepted line to corrupt")
         return
-    n, bad, r = vlib.validate_lines(ctx, "Trace_Codec", picks, timeout=300)
+    n, bad, r = vlib.validate_lines(ctx, "Trace_Codec", picks, timeout=300, workers=WORKERS)
     ctx.ev.cov["selftest_corrupted_lines"] = len(picks)
     ctx.ev.cov["selftest_rejected"] = len(bad)
     ctx.ev.cov["selftest_functions"] = len(seen)
@@ -351,7 +357,7 @@ def run(ctx):
 
     # 1. anchors of the reference semantics (a failure here means the SPECIFICATION is wrong)
     def vectors():
-        r = vlib.tlc("CodecVectors", timeout=600, quiet=True)
+        r = vlib.tlc("CodecVectors", timeout=600, quiet=True, workers=WORKERS)
         ev.cov["spec_vectors_states"] = r.distinct
         if r.rc != 0:
             ctx.note_inconclusive("ref/CodecVectors.tla fails (specification error, nothing is reported against the code): %s"
